@@ -385,3 +385,54 @@ def peptide_protein_map_text(db, min_len=5, mc=0):
             for p in dict.fromkeys(digest_full(f(seq), "trypsin", mc, min_len, 60)):
                 m.setdefault(p, []).append(prefix + pid)
     return "".join("%s\t%s\n" % (p, ";".join(q)) for p, q in m.items())
+
+
+# ------------------------------------------------------------------------------------------------
+# additions for runs RICH IN TIES (C07 hash-seed / fresh-process stages, C14 written-table exhibit): many protein
+# groups with exactly the same best PEP, targets and decoys interleaved, so that the position of a method in the
+# run's random stream (and any re-ordering of equal scores) shows in the written bytes.  Nothing above is changed.
+# ------------------------------------------------------------------------------------------------
+TIE_LEVELS = [[0.001], [0.001, 0.01], [0.0001, 0.001, 0.02], [0.01, 0.01, 0.002]]
+
+
+def gen_tied_database(rng, n_prot=None):
+    """[(id, sequence)]: n proteins (default 8-14), each with one or two peptides of its OWN (so that nearly every
+    protein - and its generated decoy - is a group of its own under every grouping), one peptide shared by two of
+    them; realistic identifiers half of the time"""
+    n = n_prot or rng.randint(8, 14)
+    used = set()
+    db = []
+    for i in range(1, n + 1):
+        db.append(["P%d" % i, [make_peptide(rng, used) for _ in range(rng.choice([1, 1, 2]))]])
+    if n >= 2 and rng.random() < 0.6:
+        a, b = rng.sample(range(n), 2)
+        s = make_peptide(rng, used)
+        db[a][1].insert(rng.randint(0, len(db[a][1])), s)
+        db[b][1].insert(rng.randint(0, len(db[b][1])), s)
+    db = [(pid, "".join(peps)) for pid, peps in db]
+    if rng.random() < 0.5:
+        db = [("sp|Q%05d|%s_HUMAN" % (rng.randint(0, 99999), pid), seq) for pid, seq in db]
+    return db
+
+
+def gen_tied_psms(rng, db, n_exp=1, levels=None):
+    """PSM dicts (the shape of gen_psms) with PEPs from a grid of one to three values: most target and decoy
+    peptides are identified once, so many proteins and many generated decoys share exactly the same best PEP;
+    the rows are shuffled (targets and decoys interleaved)"""
+    levels = levels or rng.choice(TIE_LEVELS)
+    m = peptide_map(db)
+    peps = sorted(m)
+    rng.shuffle(peps)
+    psms = []
+    for p in peps:
+        prots = m[p]
+        target = any(not q.startswith("REV__") for q in prots)
+        if target:
+            prots = [q for q in prots if not q.startswith("REV__")]
+        if rng.random() > (0.9 if target else 0.75):
+            continue
+        for _ in range(rng.choice([1, 1, 1, 2])):
+            psms.append({"peptide": p, "proteins": prots, "pep": rng.choice(levels), "experiment": "exp%d" % rng.randint(1, n_exp),
+                         "charge": rng.choice([2, 2, 3]), "intensity": rng.randint(1, 2000) * 1000, "fraction": 1})
+    rng.shuffle(psms)
+    return psms
